@@ -213,13 +213,15 @@ Print Assumptions C03_statement_attributes_text.
 
 (* (4) the WHOLE pipeline on one element.  markup.parse -- tokenize, parse, convert, snippet resolution,
    transform -- of the text of an element whose name is neither a snippet nor `lorem...` yields the one
-   node carrying [merge_spec] of the written mentions ...  ([xsl_rule_applies]: under the xsl syntax an
+   node carrying [merge_spec] of the written mentions ...  ([mc_bem cfg = false]: BEM off -- with
+   bem.enabled the BEM addon rewrites class values (`-` / `_` prefixes, block names taken from the
+   ancestors), which is not the subject of C03; the same hypothesis stands in (4)-(6).  [xsl_rule_applies]: under the xsl syntax an
    xsl:variable / xsl:with-param WITH content loses its `select` attribute -- the xsl addon, excluded.) *)
 Theorem C03_element_markup_parse :
   forall (cfg : mconfig) (e : selem),
     selem_ok e -> jsx_ok (mc_jsx cfg) e -> mc_text cfg = WNone ->
     assoc_str (se_name e) (mc_snippets cfg) = None -> match_lorem (se_name e) = LNo ->
-    xsl_rule_applies cfg e = false ->
+    xsl_rule_applies cfg e = false -> mc_bem cfg = false ->
     markup_parse cfg (elem_text e) =
       Ok [ANode (Some (se_name e)) (elem_text_value e) None
                 (match written_mentions e with [] => None | m => Some (merge_spec (mc_reverse_attrs cfg) [] m) end)
@@ -244,7 +246,7 @@ Theorem C03_expand_element_text :
     let c := xc_o x in
     selem_ok e -> jsx_ok (mc_jsx m) e -> mc_text m = WNone ->
     assoc_str (se_name e) (mc_snippets m) = None -> match_lorem (se_name e) = LNo ->
-    xsl_rule_applies m e = false ->
+    xsl_rule_applies m e = false -> mc_bem m = false ->
     html_family (mc_syntax m) -> oc_comment_enabled c = false ->
     oc_format_leaf c = false -> mem_str (se_name e) (oc_format_force c) = false ->
     let attrs := merge_spec (mc_reverse_attrs m) [] (written_mentions e) in
@@ -266,7 +268,7 @@ Print Assumptions C03_expand_element_text.
 Theorem C03_statement_markup_parse :
   forall (cfg : mconfig) (xs : list (selem * sop)),
     Forall (fun x => selem_ok (fst x) /\ jsx_ok (mc_jsx cfg) (fst x) /\ plain_name cfg (fst x)) xs ->
-    mc_text cfg = WNone ->
+    mc_text cfg = WNone -> mc_bem cfg = false ->
     exists forest,
       markup_parse cfg (stmt_text xs) = Ok forest /\
       apreNL 0 forest =
@@ -296,7 +298,7 @@ Theorem C03_statement_expand :
     let m := xc_m x in
     let c := xc_o x in
     Forall (fun p => selem_ok (fst p) /\ jsx_ok (mc_jsx m) (fst p) /\ plain_name m (fst p)) xs ->
-    mc_text m = WNone -> html_family (mc_syntax m) ->
+    mc_text m = WNone -> mc_bem m = false -> html_family (mc_syntax m) ->
     oc_format c = false -> oc_comment_enabled c = false -> oc_format_leaf c = false ->
     Forall (fun p => elem_out_ok m c (fst p)) xs ->
     exists forest,
@@ -308,7 +310,7 @@ Print Assumptions C03_statement_expand.
 (* non-vacuity of (4): a.x[b=f(1) c. !d class='y z']#i{5 > 3 \{ok\}}  expands to
    <a class="x y z" b="f(1)" c="c" id="i">5 > 3 {ok}</a> *)
 Example C03_expand_nonvacuous :
-  let x := mkX (mkMConfig (S "html") [] [] WNone None None false None [] false false)
+  let x := mkX (mkMConfig (S "html") [] [] WNone None None false None [] false false false [] [] None)
                (mkOconfig (mkOfmt [] [] []) [] [] (S "double") true false [] [] 0 false [] (S "html") [] false [] [] []
                           false None None) in
   let e := mkSElem (S "a")
@@ -357,7 +359,7 @@ Example C03_statement_nonvacuous :
   let xs := [(mkSElem (S "a") [PClass 0 (S "x")] None false, SChild);
              (mkSElem (S "b") [PSet [] (spaced [mkSAttr false (S "c") false (SUnq (S "1"))])] (Some (S "t>u")) false, SSibling);
              (mkSElem (S "d") [PId 0 (S "e")] None true, SSibling)] in
-  let cfg := mkMConfig (S "html") [(S "a", S "a[href]")] [] WNone None None false None [] false false in
+  let cfg := mkMConfig (S "html") [(S "a", S "a[href]")] [] WNone None None false None [] false false false [] [] None in
   Forall (fun x => selem_ok (fst x) /\ jsx_ok false (fst x)) xs /\ stmt_text xs = S "a.x>b[c=1]{t>u}+d#e/" /\
   Forall (fun x => plain_name cfg (fst x)) (tl xs).
 Proof.
@@ -402,7 +404,7 @@ Qed.
 (* non-vacuity of (5), (6): a.x>b[c=1]{t>u}+d#e/ with formatting off (here `a` is not a snippet;
    selfClosingStyle html writes the marked element as <d id="e">) *)
 Example C03_statement_expand_nonvacuous :
-  let x := mkX (mkMConfig (S "html") [] [] WNone None None false None [] false false)
+  let x := mkX (mkMConfig (S "html") [] [] WNone None None false None [] false false false [] [] None)
                (mkOconfig (mkOfmt [] [] []) [] [] (S "double") false false [] [] 0 false [] (S "html") [] false [] [] []
                           false None None) in
   let xs := [(mkSElem (S "a") [PClass 0 (S "x")] None false, SChild);
